@@ -2508,8 +2508,9 @@ static bool upipe_h265f_find(struct upipe *upipe,
 
             /* retrieve the octet preceding the start code, if it exists */
             if (p <= buffer + 6 &&
-                !ubase_check(uref_block_extract(upipe_h265f->next_uref,
-                                    upipe_h265f->au_size - 6, 1, prev_p)))
+                (upipe_h265f->au_size < 6 ||
+                 !ubase_check(uref_block_extract(upipe_h265f->next_uref,
+                                    upipe_h265f->au_size - 6, 1, prev_p))))
                 *prev_p = 0xff;
             return true;
         }
